@@ -52,6 +52,12 @@ function permutations(xs) {
 
 function projects() {
   const out = [];
+  // single-file programs in which one construct is expanded once per key / member and every expansion draws on the
+  // compilation-wide counter of generated helper names, or can fail with its own message
+  out.push({ name: "mapped-template-through-the-semantic-engine", files: { "entry.ts": 'type Tree = { kids: Tree[] };\ntype List = { v: number, n: List | null };\ntype Slots = { left: Tree | null, right: Tree | null | undefined, mid: List | null };\ntype M = { [K in keyof Slots]: Exclude<Slots[K], null | undefined> };\nexport const Parsers = parse.buildParsers<{ M: M }>();' } });
+  out.push({ name: "mapped-template-through-the-semantic-engine-2", files: { "entry.ts": 'type Tree = { value: string, children: Tree[] };\ntype Slots = { left: Tree | null, right: Tree | undefined, label: string | null };\ntype Filled = { [K in keyof Slots]: Exclude<Slots[K], null | undefined> };\nexport const Parsers = parse.buildParsers<{ F: Filled }>();' } });
+  out.push({ name: "mapped-template-with-one-error-per-key", files: { "entry.ts": 'type Shape = { [K in "x" | "y" | "z"]: K extends "x" ? unique symbol : K extends "y" ? this : string };\nexport const Parsers = parse.buildParsers<{ S: Shape }>();' } });
+  out.push({ name: "record-and-pick-through-the-semantic-engine", files: { "entry.ts": 'type Tree = { kids: Tree[] };\ntype Slots = { a: Tree | null, b: Tree | null, c: Tree | null };\ntype R = { p: Exclude<Slots["a"], null>, q: Exclude<Slots["b"], null>, r: Exclude<Slots["c"], null> };\nexport const Parsers = parse.buildParsers<{ R: R, S: Exclude<Slots["c"], null> }>();' } });
   const bases = basePrograms();
   const lay = (name, fileOf, style) => {
     const b = bases.find((x) => x.name === name);
@@ -168,9 +174,11 @@ export async function run() {
   // the single-file programs of the type families (every construct the printer has a special case for), lazy
   // order only, under 6 owned hash seeds (thorough: all seeds)
   const famSeeds = TIER === "thorough" ? seeds : seeds.slice(0, 6);
-  const fam = familyPrograms({ light: true }).filter((p) => p.family !== "F1d2").map((p) => ({ name: `family ${p.family}#${p.index ?? p.note}`, files: { "entry.ts": renderProgram(p) }, family: true }));
+  const fam = familyPrograms().filter((p) => p.family !== "F1d2").map((p) => ({ name: `family ${p.family}#${p.index ?? p.note}`, files: { "entry.ts": renderProgram(p) }, family: true, prog: p }));
   stats.familyPrograms = fam.length;
-  for (const p of [...projects(), ...fam]) {
+  const queue = [...projects(), ...fam];
+  for (let qi = 0; qi < queue.length; qi++) {
+    const p = queue[qi];
     stats.projects++;
     const fileNames = Object.keys(p.files);
     let orders = [[]]; // purely lazy
@@ -200,6 +208,12 @@ export async function run() {
       if (!groups.has(r.text)) groups.set(r.text, []);
       groups.get(r.text).push(r);
     }
+    // a family program that only yields a diagnostic (one parser beff does not compile) would take its other parsers out
+    // of the comparison: they are queued again one parser per program
+    if (p.family && p.prog && p.prog.parsers.length > 1 && results.every((r) => !r.text.startsWith("CRASH") && JSON.parse(r.text).code == null)) {
+      for (const pr of p.prog.parsers) queue.push({ name: `${p.name}/${pr[0]}`, files: { "entry.ts": renderProgram({ ...p.prog, parsers: [pr] }) }, family: true });
+      stats.familyProgramsSplit = (stats.familyProgramsSplit ?? 0) + 1;
+    }
     if (!p.family || groups.size > 1) distinctPerProject[p.name] = groups.size;
     if (groups.size > 1) {
       const [a, b] = [...groups.values()];
@@ -219,7 +233,7 @@ export async function run() {
       evaluations: stats.runs,
       distinct_nontrivial: Object.keys(distinctPerProject).length,
       // (per-project counts are listed for the multi-file projects only)
-      rule: "every single-file program of the type families F1 depth 1, F1x, F2, F3, F4 (lazy order, 6 owned hash seeds each; thorough: all seeds) and 26 multi-file projects (values and types through export-star barrels, re-converging star graphs, C09 layouts in 5 import styles, 14 interdependent declarations referenced in scrambled order, several independent errors, typeof of a namespace with several unsupported exports, export-star aggregation and conflict) × pre-registration orders (" + (TIER === "thorough" ? "all n! orders of <=4 files" : "a sixth of the n! orders") + " + purely lazy + dependencies-only in both orders) × fresh OS processes × std HashMap seeds owned through an LD_PRELOAD getrandom shim (" + seeds.length + " seeds on the lazy order, 2 per other order, plus one run with the system's own randomness); oracle: all runs of one project give byte-identical code and identical serialised diagnostics (both entry points). distinct_nontrivial = number of projects",
+      rule: "every single-file program of the type families F1 depth 1, F1x, F2, F3, F4 (lazy order, 6 owned hash seeds each; thorough: all seeds; a program that only yields a diagnostic is run again one parser per program) and 26 multi-file projects (values and types through export-star barrels, re-converging star graphs, C09 layouts in 5 import styles, 14 interdependent declarations referenced in scrambled order, several independent errors, typeof of a namespace with several unsupported exports, export-star aggregation and conflict) × pre-registration orders (" + (TIER === "thorough" ? "all n! orders of <=4 files" : "a sixth of the n! orders") + " + purely lazy + dependencies-only in both orders) × fresh OS processes × std HashMap seeds owned through an LD_PRELOAD getrandom shim (" + seeds.length + " seeds on the lazy order, 2 per other order, plus one run with the system's own randomness); oracle: all runs of one project give byte-identical code and identical serialised diagnostics (both entry points). distinct_nontrivial = number of projects",
       samples,
       exhaustive: false,
       projects: stats.projects,
